@@ -352,6 +352,9 @@ pub struct World {
 	pub accepted_cu: u64,
 	pub accepted_na: u64,
 	pub rejected: u64,
+	/// development only (env GOSSIPSIM_SKIP_C17_1): do not evaluate the model-equality oracles, so
+	/// that sensitivity experiments can show what the model-independent oracles catch on their own
+	skip_model_oracles: bool,
 }
 
 fn set_clock(t: u64) {
@@ -388,10 +391,14 @@ impl World {
 			accepted_cu: 0,
 			accepted_na: 0,
 			rejected: 0,
+			skip_model_oracles: std::env::var("GOSSIPSIM_SKIP_C17_1").is_ok(),
 		}
 	}
 
 	fn violate(&mut self, oracle: &str, msg: String) {
+		if self.skip_model_oracles && (oracle == O_RESULT || oracle == O_VIEW) {
+			return;
+		}
 		self.out.violate(PROP, oracle, self.step, msg);
 		self.dead = true;
 	}
@@ -1167,7 +1174,9 @@ impl World {
 		let mv = self.gs[g].model.view();
 		if let Some(d) = view.first_diff(&mv, "graph", "model") {
 			self.violate(O_VIEW, format!("graph {}: {}", g, d));
-			return;
+			if !self.skip_model_oracles {
+				return;
+			}
 		}
 		let lk = self.gs[g].lookup.inner.lock().unwrap().unplanned_calls;
 		if lk > 0 {
